@@ -93,6 +93,9 @@ static const bprog_t progs[] = {
   /* three fields: a claim that spans a whole intermediate field (bits 60..131 free) against smaller claims and a purger */
   { .name = "B3", .nthreads = 3, .fields = 3, .init = { 0x0FFFFFFFFFFFFFFFULL, 0, 0xFFFFFFFFFFFFFFF0ULL },
     .run = { { { B_CLAIM, 70, 0 }, { B_UNCLAIM, 0 } }, { { B_CLAIM, 3, 2 }, { B_UNCLAIM, 2 }, { B_CLAIM, 66, 3 } }, { { B_TRYCLAIM, 100, 8, 5 }, { B_CLAIM1, 1, 6 } } } },
+  /* claims of exactly one whole field (64 bits) inside a field whose bit 0 is free, racing each other and a small claim */
+  { .name = "B4", .nthreads = 3, .fields = 3, .init = { 0, 0, 0 },
+    .run = { { { B_CLAIM1, 64, 0 }, { B_UNCLAIM, 0 }, { B_CLAIM1, 64, 1 } }, { { B_CLAIM1, 64, 2 }, { B_UNCLAIM, 2 } }, { { B_CLAIM1, 3, 4 }, { B_TRYCLAIM, 64, 64, 5 } } } },
 };
 #define NPROGS (sizeof(progs) / sizeof(progs[0]))
 
